@@ -464,6 +464,27 @@ def run_selfgen(exe, argsets, timeout=7200, tag="selfgen", env=None, maxpar=None
     return res
 
 
+def run_file_stdin(cmd, data, cwd=None, env=None, timeout=180):
+    """Run cmd with a regular (seekable) file holding `data` as standard input.
+    -> (returncode or "timeout", stdout, stderr, offset): offset is where the shared file position stands after the
+    process has ended, i.e. how much of its input the process took from whoever reads the same file next."""
+    d = scratch("stdin")
+    path = os.path.join(d, "stdin.dat")
+    with open(path, "wb") as f:
+        f.write(data)
+    fd = os.open(path, os.O_RDONLY)
+    try:
+        try:
+            r = subprocess.run(cmd, stdin=fd, stdout=subprocess.PIPE, stderr=subprocess.PIPE, cwd=cwd, env=env, timeout=timeout)
+            res = (r.returncode, r.stdout, r.stderr, os.lseek(fd, 0, os.SEEK_CUR))
+        except subprocess.TimeoutExpired:
+            res = ("timeout", b"", b"", None)
+    finally:
+        os.close(fd)
+        shutil.rmtree(d, ignore_errors=True)
+    return res
+
+
 def pmap(fn, items, nproc=None):
     """multiprocessing map with fork (fn must be a module-level function)."""
     import multiprocessing as mp
